@@ -14,6 +14,7 @@ CONSTANTS Kinds,        \* subset of {"DTOC", "IDMT", "IDTOC", "FUSE"}
           Envs,         \* environments 10*sw + (1 if scenario "pp" else 0): which switch the device acts on, which table it reads
           FRoutes, StdSets, Sels, Places,   \* fuse: routes, present data sets, curve_select, placements 10*before + after
           NPoints, XLevels, YLevels,        \* fuse: number of support points, current levels, melting-time levels
+          Probe,        \* "all": every current level of Currents(cfg); "reps": one representative level per stage
           Depth
 VARIABLES cfg, hist, s
 
@@ -43,20 +44,21 @@ RelayCfgs == {c \in RelayCfgs0 : c.troute = "list" \/ c.Tdiff = SetMin(DLevels)}
 
 IncSeqs(n, S) == {q \in [1..n -> S] : \A j \in 1..n - 1 : q[j] < q[j + 1]}
 NonIncSeqs(n, S) == {q \in [1..n -> S] : \A j \in 1..n - 1 : q[j] >= q[j + 1]}
-FuseCfgs0 == { [kind |-> "FUSE", froute |-> fr, sets |-> st, sel |-> se, before |-> pl \div 10, after |-> pl % 10,
-                x |-> xs, y |-> ys, sw |-> SwOf(e), scen |-> ScenOf(e)] :
-               fr \in FRoutes, st \in StdSets, se \in Sels, pl \in Places, e \in Envs,
-               xs \in UNION {IncSeqs(n, XLevels) : n \in NPoints}, ys \in UNION {NonIncSeqs(n, YLevels) : n \in NPoints} }
-\* the direct route passes one data set: normalise the std-type fields there
+PointSets == { <<xs, ys>> : xs \in UNION {IncSeqs(n, XLevels) : n \in NPoints}, ys \in UNION {NonIncSeqs(n, YLevels) : n \in NPoints} }
+FuseRec(fr, st, se, pl, e, p) == [kind |-> "FUSE", froute |-> fr, sets |-> st, sel |-> se, before |-> pl \div 10, after |-> pl % 10,
+                                  x |-> p[1], y |-> p[2], sw |-> SwOf(e), scen |-> ScenOf(e)]
+\* the direct route passes one data set to create_characteristic: no std-type fields to choose
+FuseDirect == { FuseRec("direct", {"a"}, 0, pl, e, p) : pl \in Places, e \in Envs, p \in {q \in PointSets : Len(q[1]) = Len(q[2])} }
+FuseStd == { FuseRec("std", st, se, pl, e, p) : st \in StdSets, se \in Sels, pl \in Places, e \in Envs,
+                                               p \in {q \in PointSets : Len(q[1]) = Len(q[2])} }
 FuseCfgs == IF "FUSE" \notin Kinds THEN {} ELSE
-            {c \in FuseCfgs0 : /\ Len(c.x) = Len(c.y)
-                               /\ (c.froute = "direct" => c.sets = {"a"} /\ c.sel = 0)}
+            (IF "direct" \in FRoutes THEN FuseDirect ELSE {}) \cup (IF "std" \in FRoutes THEN FuseStd ELSE {})
 Configs == RelayCfgs \cup FuseCfgs
 
 Init == cfg \in Configs /\ hist = <<>> /\ s = S0
 Next == /\ Len(hist) < Depth
         /\ Valid(cfg)                              \* a refused configuration has no device to act on
-        /\ \E a \in Ops(cfg) : hist' = Append(hist, a) /\ s' = Step(cfg, s, a) /\ UNCHANGED cfg
+        /\ \E a \in Ops(cfg, Probe) : hist' = Append(hist, a) /\ s' = Step(cfg, s, a) /\ UNCHANGED cfg
 
 --------------------------------------------------------------------------------
 (* Model-level theorems.  The first four depend on the configuration only and are evaluated on the initial states. *)
@@ -72,6 +74,8 @@ GradedIsMonotone == (AtRoot /\ Graded(cfg)) => LET Cs == Currents(cfg) at == [I 
 BoundariesProbed == AtRoot => LET Cs == Currents(cfg) IN
                       /\ \A t \in Thresholds(cfg) : (t \in Cs) /\ (t - 1 \in Cs \/ \E I \in Cs : I < t) /\ (\E I \in Cs : I > t)
                       /\ \A I \in Cs : I > 0
+\* the representatives enter every stage that the full set of levels enters
+RepsCoverStages == AtRoot => {Region(cfg, I) : I \in Reps(cfg)} = {Region(cfg, I) : I \in Currents(cfg)}
 \* the decoy current always lies on the other side of the pick-up
 DecoyFlips == AtRoot => \A I \in Currents(cfg) : Trip(cfg, Decoy(cfg, I)) # Trip(cfg, I) /\ Decoy(cfg, I) > 0
 \* the device flag is a function of the LAST evaluation only; the switch follows the flag only through status_to_net
